@@ -39,10 +39,9 @@ KERNEL_MAXLEN = 4000
 TRUSTED_BASE = ["lib/scheme_ref.py: reference interpreter written from R7RS (an oracle used to classify outputs, not a proof)"]
 
 MANIFEST = dict(
-    text="Coq theorems (coq/Props/C02.v): compile-time resolution of a name in a lambda built from its enclosing lambda — own parameter first, then internal definition, then the enclosing lambda's lexical binding, else global (binding_location over EnvironmentMap::new_from_iof, all argument lists); run-time: closure environment slots are pointers to the creating activation's locations, loads/stores go through exactly one location, an assignment through one name is visible through every name of the same location. OPEN: the whole-machine flatness invariant of locations. Tie: exhaustive/random scope skeletons, three-way differential + independent reference interpreter as oracle.",
+    text="Coq theorems (coq/Props/C02.v): compile-time resolution of a name in a lambda built from its enclosing lambda — own parameter first, then internal definition, then the enclosing lambda's lexical binding, else global (binding_location over EnvironmentMap::new_from_iof, all argument lists); run-time: closure environment slots are pointers to the creating activation's locations, loads/stores go through exactly one location, an assignment through one name is visible through every name of the same location; ENTER allocates the activation's environment at a heap address that was free (fresh id, every existing environment unchanged at a different address: separate activations get separate locations), a store rewrites exactly one slot of one environment and nothing else, RET leaves heap and environments untouched (a binding outlives its creator: every closure still reads the same slots), and flatness of locations (no LexPtr chains) holds initially and is preserved by ENTER, CLOSURE, RET, PUSH, JMP, JNT, HALT and by stores of non-pointer values. OPEN: flatness preservation for the remaining instructions (MOV, CONS, VPUSH, CALL, TCALL, VARARG) and its induction over the run loop; the statement over ALL states is refuted by an unreachable hand-made state and kept visible. Tie: exhaustive/random scope skeletons, three-way differential + independent reference interpreter as oracle.",
     design="DESIGN.md section 5 C02",
-    note="The theorems are in coq/Props/C02.v (integrator); until they land that file holds a placeholder statement. "
-         "The reference interpreter is an ORACLE for classifying the implementation's output, not a proof. The "
+    note="The reference interpreter is an ORACLE for classifying the implementation's output, not a proof. The "
          "enumeration is exhaustive only within the stated caps (reduced skeletons, actions/bindings caps, one "
          "invocation pattern per skeleton); beyond them it is sampling. Known finding: qq-free-var (a variable read "
          "through a quasiquote inside a nested procedure).",
